@@ -1,242 +1,3 @@
-import OV.Model.C03Pass
-import OV.Drivers.Loop
-/-! Line-protocol driver for C03/C04.
-
-`C03 fold L=<n> M=<n> SF=<N|T|F> FN=<0|1> IMP <k> (dom ver)* TOK <k> cinfo* ORA <k> (key cinfo)* VI <k> (name dtype shape tok)* <graph>`
-
-* `cinfo := tok dtype shape ints isZero` (`tok = !F` in an ORA entry: evaluation failed)
-* `shape := ? | - | d,d,…` with `d := <int> | s:<name> | u`;  `ints := ? | - | i,i,…`
-* `graph := G <n> in* <n> (name tok)* <n> node* <n> out*`
-* `node := N op dom <n> (name|-)* <n> out* <n> attr* <n> (key graph)*`, `attr := k=i:<int> | k=is:<ints> | k=t:<tok> | k=o:<id>`
-* the empty string (default domain, skipped optional output) is written `~`.
-
-Answer: `OK mod=<0|1> err=<-|msg> NEED <k> key* HIST <k> h* <graph>`.
--/
-namespace OV.Drivers.C03
-open OV.C03
-
-abbrev P (α : Type) := List String → Option (α × List String)
-
-def tok1 : P String
-  | [] => none
-  | t :: r => some (t, r)
-
-def unq (s : String) : String := if s == "~" then "" else s
-def q (s : String) : String := if s == "" then "~" else s
-
-def pNat : P Nat := fun ts => match ts with
-  | t :: r => t.toNat?.map (·, r)
-  | [] => none
-
-def pMany {α} (p : P α) : Nat → P (List α)
-  | 0, ts => some ([], ts)
-  | k + 1, ts => match p ts with
-    | none => none
-    | some (a, ts) => match pMany p k ts with
-      | none => none
-      | some (as, ts) => some (a :: as, ts)
-
-def pCounted {α} (p : P α) : P (List α) := fun ts =>
-  match pNat ts with
-  | none => none
-  | some (k, ts) => pMany p k ts
-
-def parseIntsList (s : String) : Option (List Int) :=
-  if s == "-" || s == "" then some [] else (s.splitOn ",").mapM (·.toInt?)
-
-def parseOptInts (s : String) : Option (Option (List Int)) :=
-  if s == "?" then some none else (parseIntsList s).map some
-
-def parseDim (s : String) : Option Dim :=
-  if s == "u" then some .unk
-  else if s.startsWith "s:" then some (.sym (s.drop 2).toString)
-  else s.toInt?.map .known
-
-def parseShape (s : String) : Option (Option (List Dim)) :=
-  if s == "?" then some none
-  else if s == "-" then some (some [])
-  else ((s.splitOn ",").mapM parseDim).map some
-
-def parseOptBool (s : String) : Option Bool := if s == "1" then some true else if s == "0" then some false else none
-
-def pCInfo : P CInfo := fun ts =>
-  match ts with
-  | t :: dt :: sh :: is :: z :: r =>
-    match dt.toNat?, parseIntsList sh, parseOptInts is with
-    | some dt, some sh, some is => some ({ tok := t, dtype := dt, shape := sh.map Int.toNat, ints := is, isZero := parseOptBool z }, r)
-    | _, _, _ => none
-  | _ => none
-
-def pOracle : P (String × Oracle) := fun ts =>
-  match ts with
-  | key :: r =>
-    match pCInfo r with
-    | some (c, r) => some ((key, if c.tok == "!F" then Oracle.fail else Oracle.single c), r)
-    | none => none
-  | [] => none
-
-def pImport : P (String × Nat) := fun ts =>
-  match ts with
-  | d :: v :: r => v.toNat?.map fun v => ((unq d, v), r)
-  | _ => none
-
-def pVI (toks : List (String × CInfo)) : P (Name × VInfo) := fun ts =>
-  match ts with
-  | x :: dt :: sh :: c :: r =>
-    match parseShape sh with
-    | some sh => some ((unq x, { dtype := dt.toNat?, shape := sh, const := if c == "-" then none else lookupA toks c }), r)
-    | none => none
-  | _ => none
-
-def parseAttr (s : String) : Option (String × Attr) :=
-  match s.splitOn "=" with
-  | k :: rest =>
-    let v := "=".intercalate rest
-    if v.startsWith "i:" then (v.drop 2).toString.toInt?.map fun i => (k, Attr.int i)
-    else if v.startsWith "is:" then (parseIntsList (v.drop 3).toString).map fun l => (k, Attr.ints l)
-    else if v.startsWith "t:" then some (k, Attr.tensor (v.drop 2).toString)
-    else if v.startsWith "o:" then some (k, Attr.opaque (v.drop 2).toString)
-    else none
-  | [] => none
-
-def pAttr : P (String × Attr) := fun ts => match ts with
-  | t :: r => (parseAttr t).map (·, r)
-  | [] => none
-
-def pName : P Name := fun ts => match ts with
-  | t :: r => some (unq t, r)
-  | [] => none
-
-def pOptName : P (Option Name) := fun ts => match ts with
-  | t :: r => some (if t == "-" then none else some (unq t), r)
-  | [] => none
-
-def pInit : P (Name × String) := fun ts => match ts with
-  | x :: t :: r => some ((unq x, t), r)
-  | _ => none
-
-mutual
-def pGraph : Nat → P Graph
-  | 0, _ => none
-  | f + 1, ts =>
-    match ts with
-    | "G" :: ts =>
-      match pCounted pName ts with
-      | none => none
-      | some (ins, ts) =>
-        match pCounted pInit ts with
-        | none => none
-        | some (inits, ts) =>
-          match pCounted (pNode f) ts with
-          | none => none
-          | some (nodes, ts) =>
-            match pCounted pName ts with
-            | none => none
-            | some (outs, ts) => some (Graph.mk ins inits nodes outs, ts)
-    | _ => none
-def pNode : Nat → P Node
-  | 0, _ => none
-  | f + 1, ts =>
-    match ts with
-    | "N" :: op :: dom :: ts =>
-      match pCounted pOptName ts with
-      | none => none
-      | some (ins, ts) =>
-        match pCounted pName ts with
-        | none => none
-        | some (outs, ts) =>
-          match pCounted pAttr ts with
-          | none => none
-          | some (attrs, ts) =>
-            match pCounted (pSub f) ts with
-            | none => none
-            | some (subs, ts) => some (Node.mk op (unq dom) ins outs attrs subs, ts)
-    | _ => none
-def pSub : Nat → P (String × Graph)
-  | 0, _ => none
-  | f + 1, ts =>
-    match ts with
-    | k :: ts => match pGraph f ts with
-      | some (g, ts) => some ((k, g), ts)
-      | none => none
-    | [] => none
-end
-
-def kv (pre : String) (s : String) : Option String :=
-  if s.startsWith pre then some (s.drop pre.length).toString else none
-
-structure Case where
-  ctx : Ctx
-  info : List (Name × VInfo)
-  g : Graph
-
-def parseCase (ts : List String) : Option Case :=
-  match ts with
-  | l :: m :: sf :: fn :: "IMP" :: ts =>
-    match (kv "L=" l).bind (·.toNat?), (kv "M=" m).bind (·.toNat?), kv "SF=" sf, kv "FN=" fn with
-    | some l, some m, some sf, some fn =>
-      match pCounted pImport ts with
-      | some (imps, "TOK" :: ts) =>
-        match pCounted pCInfo ts with
-        | some (cinfos, "ORA" :: ts) =>
-          let toks := cinfos.map fun c => (c.tok, c)
-          match pCounted pOracle ts with
-          | some (ora, "VI" :: ts) =>
-            match pCounted (pVI toks) ts with
-            | some (vis, ts) =>
-              match pGraph (ts.length + 1) ts with
-              | some (g, []) =>
-                some { ctx := { inLimit := l, outLimit := m,
-                                shouldFold := if sf == "T" then some true else if sf == "F" then some false else none,
-                                imports := imps, isFunction := fn == "1", toks := toks, oracle := ora },
-                       info := vis, g := g }
-              | _ => none
-            | _ => none
-          | _ => none
-        | _ => none
-      | _ => none
-    | _, _, _, _ => none
-  | _ => none
-
-/-! printing -/
-
-def showOptName : Option Name → String
-  | none => "-"
-  | some x => q x
-
-mutual
-def showGraph : Nat → Graph → List String
-  | 0, _ => ["G?"]
-  | f + 1, g =>
-    ["G", toString g.inputs.length] ++ g.inputs.map q ++
-    [toString g.inits.length] ++ g.inits.flatMap (fun (x, t) => [q x, t]) ++
-    [toString g.nodes.length] ++ g.nodes.flatMap (showNode f) ++
-    [toString g.outputs.length] ++ g.outputs.map q
-def showNode : Nat → Node → List String
-  | 0, _ => ["N?"]
-  | f + 1, n =>
-    ["N", n.op, q n.domain, toString n.inputs.length] ++ n.inputs.map showOptName ++
-    [toString n.outputs.length] ++ n.outputs.map q ++
-    [toString n.attrs.length] ++ n.attrs.map showAttr ++
-    [toString n.subs.length] ++ n.subs.flatMap (fun (k, g) => k :: showGraph f g)
-end
-
-def sanitize (s : String) : String := s.map fun c => if c == ' ' then '_' else c
-
-def handle (args : List String) : String :=
-  match args with
-  | "fold" :: ts =>
-    match parseCase ts with
-    | none => "bad-case"
-    | some c =>
-      let (st, g') := foldGraph c.ctx c.info c.g
-      " ".intercalate (
-        ["OK", "mod=" ++ (if st.modified then "1" else "0"),
-         "err=" ++ (match st.err with | some e => sanitize e | none => "-"),
-         "NEED", toString st.need.length] ++ st.need.reverse ++
-        ["HIST", toString st.hist.length] ++ st.hist.reverse ++ showGraph 64 g')
-  | _ => "bad-op"
-
-end OV.Drivers.C03
-
+import OV.Drivers.C03Handle
+/-! Executable `drv_c03` (line protocol documented in `OV/Drivers/C03Handle.lean`); serves C03 and C04. -/
 def main : IO Unit := OV.Drivers.run OV.Drivers.C03.handle
